@@ -264,3 +264,31 @@ def switch_table(fn, sw):
             labels, cur = [], []
     flush()
     return table
+
+
+def refusal_reasons(fn, is_refusal):
+    """For every return of fn accepted by is_refusal(return node): the canonical forms (sa.canon) of the disjuncts of the condition
+    of the nearest enclosing `if` whose then-branch holds it — [(return node, [canonical tuples] or None when unconditional)]."""
+    from sa.canon import canon, norm
+
+    def disj(n):
+        n = fn.strip(n)
+        if fn.nodes[n]['k'] == 'BinaryOperator' and fn.nodes[n].get('op') == '||':
+            return disj(fn.kids(n)[0]) + disj(fn.kids(n)[1])
+        return [n]
+    out = []
+    for i in fn.walk():
+        if fn.nodes[i]['k'] != 'ReturnStmt' or not is_refusal(i):
+            continue
+        guard = None
+        prev = i
+        for a in fn.ancestors(i):
+            an = fn.nodes[a]
+            if an['k'] == 'IfStmt' and an.get('then') is not None and (prev == an['then'] or fn.is_in(prev, an['then'])):
+                guard = an['cond']
+                break
+            if an['k'] in ('ForStmt', 'WhileStmt', 'CXXForRangeStmt', 'DoStmt', 'LambdaExpr'):
+                pass
+            prev = a
+        out.append((i, None if guard is None else [norm(canon(fn, c)) for c in disj(guard)]))
+    return out
